@@ -87,8 +87,8 @@ RandCases == { << <<"Up", t, 0>>, <<"Connect", 1, "rand", total, SeedOf(k, total
 
 (* ---- raw requests ---- *)
 MaxCfg == {<<0, 0>>, <<1, 0>>, <<15, 0>>, <<16, 0>>, <<17, 0>>, <<100, 0>>, <<4096, 0>>, <<8192, 0>>, <<12328, 0>>, <<100, 16384>>}
-ActVals(mx) == {0, 1, 8, 15, 16, 17, 24} \cup {x \in {mx - 1, mx, mx + 1, 2 * mx + 5} : x >= 0}
-HszVals(mx, a) == {-2147483647, -1, 0, 1, 15, 16, 17, 2147483647} \cup {x \in {a - 1, a, a + 1, mx, mx + 1} : x >= 0}
+ActVals(mx) == {0, 1, 8, 9, 11, 12, 15, 16, 17, 24} \cup {x \in {mx - 1, mx, mx + 1, 2 * mx + 5} : x >= 0}
+HszVals(mx, a) == {-2147483647, -1, 0, 1, 15, 16, 17, 256, 65536, 2147483647} \cup {x \in {a - 1, a, a + 1, mx, mx + 1} : x >= 0}
 IdSeq == <<5, 0, 1000000, -1, -2, 5, 7, 2147483647>>
 Truthful(seq, len) == <<"Send", 1, seq, len, 5, len, 1, 0>>
 
